@@ -206,7 +206,16 @@ def run(ctx):
                     continue        # chunks_exact(d) panics only for d == 0, which the facts exclude
                 if ("const", False) in fs_:
                     continue        # a way in that no input takes
-                ok_ = any(c in fs_ for c in conds_) or any(G.entails(fs_, c) is not None for c in conds_ if c[1] in ("Lt", "Eq"))
+                from .. import exact as EX
+
+                def allowed_(fx_):
+                    fx_ = [_rem_payload(N(f)) if not (isinstance(f, tuple) and f and f[0] == "or") else f for f in fx_]
+                    return any(c in fx_ for c in conds_) or any(G.entails([f for f in fx_ if f[0] != "or"], c) is not None for c in conds_ if c[1] in ("Lt", "Eq"))
+                v_ = EX.judge(fs_, allowed_)
+                if v_ == "undecided":
+                    ctx.note("S3x: a panic edge of %s is reached under the discriminant of a joined value only - not decided" % fi_["name"])
+                    continue
+                ok_ = v_ == "ok"
                 if not ok_:
                     bad_.append("%s: %s %s under %s" % (fi_["name"], s_.kind, s_.what, [G.show(f)[:70] for f in fs_][:5]))
     ctx.check(not bad_, "S3x", "exact-rejection", "memory_areas() and the private constructor diverge only for a tag the property rejects: every panic edge lies "
